@@ -2,7 +2,10 @@
 C05 - model of `verifier.verifyRevocation` and `revocationFinalResult` (verifier/verifier.go):
 the backwards loop over the per-certificate results with its accumulators, validator
 selection (context-aware validator or deprecated client), the signing-time argument, and how
-the final result becomes the revocation ValidationResult.
+the final result becomes the revocation ValidationResult. The action of the revocation type is
+not given but DERIVED from the trust policy statement as a user writes it: the named level and
+its override for the revocation type (`trustpolicy.GetVerificationLevel`) - an override decides
+in both directions, relaxing (strict -> log / skip) and tightening (permissive / audit -> enforce).
 -/
 import NotationModel.Basic
 open Lean
@@ -69,13 +72,38 @@ inductive Iface | validator | client
 inductive Action | enforce | log | skip
   deriving DecidableEq, Repr, FromJson, ToJson
 
+/-- the named verification levels of a trust policy statement -/
+inductive Level | strict | permissive | audit | skip
+  deriving DecidableEq, Repr, FromJson, ToJson
+
+/-- what the named level says about the revocation type (`LevelStrict` ... `LevelSkip`) -/
+def Level.base : Level → Action
+  | .strict => .enforce | .permissive => .log | .audit => .log | .skip => .skip
+
+/-- `GetVerificationLevel`, read at the revocation type: an override for the type REPLACES what the
+named level says - whether it relaxes the level or tightens it. (The level `skip` cannot be
+customised: a statement `skip` + override is refused when the verifier is built and never gets
+here; the generator does not emit it.) -/
+def effective (l : Level) (ov : Option Action) : Action :=
+  if l == .skip then .skip else ov.getD l.base
+
 structure Input where
   vec : List R                 -- the validator's results, leaf first
   chainLen : Nat               -- number of certificates in the signing chain (normally = vec.length)
   scheme : Scheme
   iface : Iface
-  action : Action              -- action of the revocation type in the level
+  level : Level                -- the named level of the trust policy statement
+  revOverride : Option Action  -- the statement's override for the revocation type, if it has one
+  otherOverrides : List String -- overrides of the OTHER types in the same statement ("expiry=log",
+                               -- "authenticity=enforce", ...): must not matter for revocation
+  policyForm : String          -- how the policy reached the verifier (document built in code, JSON text as a
+                               -- user writes it): must not matter
   validatorError : Bool
+  errorKind : String           -- WHAT error the validator returned (a plain one, one wrapping a context /
+                               -- deadline / timeout error, a typed revocation error, one with an empty
+                               -- message, ...): every non-nil error fails the validation - must not matter
+  callerCtx : String           -- state of the context the caller handed to Verify (live, with a deadline,
+                               -- already cancelled, already expired): must not matter
   methods : List String        -- OCSP / CRL / fallback annotations (logging only)
   serverErrors : List Bool     -- per-certificate server errors (logging only)
   errorWithResults : Bool      -- a validator-level error arrives TOGETHER with per-certificate results
@@ -88,6 +116,9 @@ structure Input where
   variant : String             -- what else is true of the signature (expired signature under a level that logs
                                -- expiry, expired chain, empty-subject signing certificate): must not matter
   deriving Repr, FromJson, ToJson
+
+/-- action of the revocation type in the level the statement denotes -/
+def Input.action (i : Input) : Action := effective i.level i.revOverride
 
 /-- outcome of the revocation validation -/
 inductive Outcome
@@ -102,6 +133,7 @@ structure Obs where
   outcome : Outcome
   named : Option Nat           -- index of the certificate the error names
   accepted : Bool              -- verifier.Verify returned no error (everything else passes)
+  resultAction : Option Action -- the action the revocation ValidationResult carries
   calls : Nat                  -- validator / client calls
   chainLen : Option Nat        -- length of the chain handed to the validator
   signingTime : Option Bool    -- a non-zero signing time was handed over
@@ -110,10 +142,11 @@ structure Obs where
 
 def run (i : Input) : Obs :=
   if i.action == .skip then
-    { outcome := .notPerformed, named := none, accepted := true, calls := 0, chainLen := none,
-      signingTime := none, usedIface := none }
+    { outcome := .notPerformed, named := none, accepted := true, resultAction := none, calls := 0,
+      chainLen := none, signingTime := none, usedIface := none }
   else
     let base : Obs := { outcome := .pass, named := none, accepted := true, calls := 1,
+                        resultAction := some i.action,
                         chainLen := some i.chainLen,
                         signingTime := some (i.scheme == .signingAuthority),
                         usedIface := some i.iface }
@@ -133,7 +166,9 @@ def clauses (i : Input) (o : Obs) : Clauses :=
   let allGood := complete && i.vec.all R.good
   let anyRevoked := complete && i.vec.any (· == .revoked)
   [ ("skipped_not_performed",
-      performed || (o.outcome == .notPerformed && o.calls == 0)),
+      performed || (o.outcome == .notPerformed && o.calls == 0 && o.resultAction == none)),
+    ("result_carries_the_action_the_policy_statement_denotes",
+      !performed || o.resultAction == some i.action),
     ("validator_consulted_once_with_complete_chain",
       !performed || (o.calls == 1 && o.chainLen == some i.chainLen && o.usedIface == some i.iface)),
     ("signing_time_only_for_signing_authority",
